@@ -37,7 +37,7 @@ CbRec(e) ==
   CASE e.cb = "roster" -> [cb |-> "roster", ver |-> e.ver, jid |-> e.jid, name |-> e.name, sub |-> e.sub, groups |-> e.groups]
     [] e.cb = "carbon" -> [cb |-> "carbon", sent |-> e.sent, id |-> e.id, from |-> e.from, to |-> e.to, typ |-> e.typ,
                            body |-> e.body, msgs |-> e.msgs]
-    [] OTHER -> [cb |-> e.cb, jid |-> e.jid]
+    [] OTHER -> [cb |-> e.cb, jid |-> e.jid, rep |-> e.rep]      \* block / unblock / unblockall: the report the callback was handed
 TrCb == IsEv("cb") /\ Busy /\ cbs' = Append(cbs, CbRec(E)) /\ UNCHANGED <<cfg, script, k, pc, eos, queue, reps, reqs, ret>>
 
 RepRec(e) == [st |-> e.st, typ |-> e.typ, id |-> e.id, to |-> e.to, cond |-> e.cond, pl |-> e.pl, ns |-> e.ns, node |-> e.node,
